@@ -271,6 +271,11 @@ func (el *HTMLElement) RemoveAttribute(_ context.Context, name ...values.String)
 	el.ensureAttrs()
 
 	for _, attr := range name {
+		// the parsed styles are a cache of the style attribute
+		if attr == common.AttrNameStyle {
+			el.styles = nil
+		}
+
 		el.attrs.Remove(attr)
 		el.selection.RemoveAttr(attr.String())
 	}
